@@ -122,6 +122,7 @@ def op_with_name(r, label, name):
 @rule("R06.2", "C06", "chk_hybrid_dep: pending effects of referenced temporaries are sequenced in operand order before the consumer (after it only on request); unreferenced ones stay pending; every effect-producing callback wraps its result", min_instances=12)
 def r06_2(ctx):
     idx = get_index(ctx.env)
+    op_list_completeness(ctx)
     for order, exp in ((None, ["s9", "s10", "consumer"]), ("HYB_THEN_SEQ", ["s9", "s10", "consumer"]), ("SEQ_THEN_HYB", ["consumer", "s9", "s10"])):
         r = Runner(idx, keep_real=("chk_hybrid_dep",))
         box = {}
@@ -453,3 +454,37 @@ def r06_8(ctx):
             ok = len(created) == 1 and h is created[0]
             ctx.check(f"{key} resolves a hybrid built by this evaluation", ok, f"Hyb(new {cls})",
                       f"{lab(v)[:70]} (nodes built on this path: {[lab(c)[:40] for c in created]}; decisions: {[d for d in o.decisions][:4]})", fn_where(idx, fi))
+
+
+def op_list_completeness(ctx):
+    """chk_hybrid_dep finds the temporaries an effect depends on through Effect.get_op_list(): that list has to contain the
+    leaf operands below every kind of operand node (otherwise a pending effect referenced through such a node is left over
+    and emitted at the start of the instruction)."""
+    idx = get_index(ctx.env)
+    fi = idx.func("Effect.get_op_list")
+    kinds = sorted(c for c in (set(idx.subclasses("PureExec")) | set(idx.subclasses("Hybrid"))) if c in idx.classes)
+    ctx.need(len(kinds) >= 10, f"operand node classes: only {len(kinds)} found")
+    for cname in kinds:
+        box = {}
+
+        def once(i, cname=cname):
+            leaf = AObj("LocalVar", {"name": "h_tmp3"}, label="leaf", opaque=True)
+            inner = AObj(cname, {"ops": [leaf], "effect_ops": [leaf]}, label="node", opaque=True)
+            outer = AObj("Cast", {"ops": [inner]}, label="outer", opaque=True)
+            eff0 = AObj("Effect", {"effect_ops": [outer]}, label="effect")
+            box["leaf"] = leaf
+            return i.call_function(fi, [], self_obj=eff0)
+
+        def hook(interp, callee, args, kwargs, text):
+            # a nested effect / hybrid answers with its own list (same method, checked for the base class here)
+            from sa.absint import OpaqueMethod
+            if isinstance(callee, OpaqueMethod) and callee.attr in ("get_op_list",):
+                return [box["leaf"]]
+            return NotImplemented
+
+        try:
+            outs = Interp(idx, call_hook=hook, may_subclass=False).explore(once)
+        except Exception as e:
+            ctx.need(False, f"Effect.get_op_list[{cname}]: {e}")
+        found = all(o.kind != "raise" and any(x is box["leaf"] for x in (o.value if isinstance(o.value, list) else [o.value])) for o in outs) and bool(outs)
+        ctx.check(f"get_op_list reaches a temporary below a {cname} operand", found, "the leaf operand is listed", "leaf missing: a pending effect referenced through this node is never sequenced before its consumer", fn_where(idx, fi))
